@@ -351,7 +351,7 @@ func (x *mucRun) do(a mucAction) {
 			}
 			x.unavailDone = true
 			got := -1
-			deadline := time.Now().Add(100 * time.Millisecond)
+			deadline := time.Now().Add(watchdog) // failing direction only: a call blocked in its select is certain to be found by the send
 			waiting := 0
 			for _, c := range x.calls {
 				if c.kind == "leave" && c.pos == "wait" {
@@ -507,6 +507,7 @@ func (x *runner) mucReplay(acts []mucAction, class string) {
 		x.res.Fail("C06/harness/setup", err.Error(), nil)
 		return
 	}
+	setCurrent(mucCase{Mode: "muc", Actions: acts})
 	for _, a := range acts {
 		run.do(a)
 		if a.Op == "snap" && !run.failed {
@@ -560,6 +561,7 @@ func (x *runner) mucWalk(r *hx.Rand, steps int) {
 			pick -= w
 		}
 		acts = append(acts, a)
+		setCurrent(mucCase{Mode: "muc", Actions: acts})
 		run.do(a)
 		if a.Op == "snap" && !run.failed {
 			x.mucEmit(run, acts, "snapshot")
